@@ -1,6 +1,7 @@
 // C08 (sequential part): reference counting destroys each object exactly once, at the last release.
 // Engine seqmc: every history over a pool of 2 reference-counted objects (a Node:Base and a Derived:Base,
-// both counting their destructor runs and both OWNING a member handle `next`) and 3 handle slots
+// both counting their destructor runs and both OWNING a member handle `next`; the Node also owns a
+// member handle of the derived type, `IntrusivePtr<Derived> dnext`) and 3 handle slots
 // (two IntrusivePtr<Base>, one IntrusivePtr<Derived>), replayed on fresh objects inside forked
 // ASan+UBSan shards.  Reference model: per object the creator's explicit references plus the handle
 // slots plus the member handles of live objects pointing at it; an object whose count reaches 0 dies
@@ -25,11 +26,6 @@ struct Base : public RefCountedObject
 };
 typedef IntrusivePtr<Base> BPtr;  // (IntrusivePtr<T> needs a complete T, so the links are handles to the base type)
 
-struct Node : public Base  // object 0: a list / scene-graph node
-{
-  BPtr next;
-  explicit Node(int *d) : Base(d) {}
-};
 struct Derived : public Base  // object 1
 {
   int *derived_dtor_runs;
@@ -39,6 +35,12 @@ struct Derived : public Base  // object 1
   ~Derived() override { ++*derived_dtor_runs; }
 };
 typedef rkcommon::memory::Ref<Derived> DPtr;  // the backward-compatible alias of RefCount.h
+struct Node : public Base  // object 0: a list / scene-graph node, or a wrapper around a Derived payload
+{
+  BPtr next;
+  DPtr dnext;  // a member handle of a DERIVED type: assigning it to a Base handle converts
+  explicit Node(int *d) : Base(d) {}
+};
 
 struct PtrSys
 {
@@ -47,7 +49,8 @@ struct PtrSys
   {
     signed char alive[2] = {0, 0};
     signed char manual[2] = {0, 0};  // references held by the creator (1 after creation, changed by refInc/refDec)
-    signed char mem[2] = {-1, -1};   // where the live object's member handle points, -1 null
+    signed char mem[2] = {-1, -1};   // where the live object's member handle `next` points, -1 null
+    signed char dmem = -1;           // where obj0's member handle `dnext` points: -1 null or 1
     signed char cons[3] = {0, 0, 0};
     signed char tgt[3] = {-1, -1, -1};  // -1 null
     int count(int k) const
@@ -59,6 +62,8 @@ struct PtrSys
       for (int j = 0; j < 2; j++)
         if (alive[j] && mem[j] == k)
           c++;
+      if (alive[0] && dmem == k)
+        c++;
       return c;
     }
     // somebody other than a member handle owns k: k survives whatever a member assignment releases
@@ -79,7 +84,9 @@ struct PtrSys
     ADOPT,                              // Ref<T> h = new T; h->refDec();  (the handle becomes the only owner)
     SETMEM, SETMEM_RAW, SETMEM_NULL,    // obj_k.next = h_j / = raw m / = null
     AS_COPY_MEM, AS_RAW_MEM,            // h_i = h_j->next / h_i = h_j->next.ptr   (i == j: the list walk)
-    CT_COPY_MEM, CT_MOVE_MEM            // h_i(h_j->next) / h_i(std::move(h_j->next))
+    CT_COPY_MEM, CT_MOVE_MEM,           // h_i(h_j->next) / h_i(std::move(h_j->next))
+    SETDMEM, SETDMEM_NULL,              // obj0.dnext = h2 / = null
+    AS_CONV_MEM, CT_CONV_MEM            // h_i = h_j->dnext / h_i(h_j->dnext): Base handle from a Derived member handle
   };
   struct Op
   {
@@ -146,6 +153,14 @@ struct PtrSys
       ops.push_back(Op{CT_COPY_MEM, i, 1 - i, "h" + S(i) + "(h" + S(1 - i) + "->m)", "copy-construct from member handle"});
     for (int i = 0; i < 2; i++)
       ops.push_back(Op{CT_MOVE_MEM, i, 1 - i, "h" + S(i) + "(mv-h" + S(1 - i) + "->m)", "move-construct from member handle"});
+    // a member handle of the derived type (obj0.dnext, can only point at obj1)
+    ops.push_back(Op{SETDMEM, 0, 2, "d0=h2", "copy-assign to Derived member handle"});
+    ops.push_back(Op{SETDMEM_NULL, 0, 0, "d0=null", "assign null to Derived member handle"});
+    for (int i = 0; i < 2; i++)
+      for (int j = 0; j < 2; j++)
+        ops.push_back(Op{AS_CONV_MEM, i, j, "h" + S(i) + "=h" + S(j) + "->d", i == j ? "assign converted Derived member handle of own pointee" : "assign converted Derived member handle of another pointee"});
+    for (int i = 0; i < 2; i++)
+      ops.push_back(Op{CT_CONV_MEM, i, 1 - i, "h" + S(i) + "(h" + S(1 - i) + "->d)", "converting construct from Derived member handle"});
   }
   const char *sysname() const { return "IntrusivePtr"; }
   const char *tag() const { return "ptr"; }
@@ -156,7 +171,7 @@ struct PtrSys
 
   static bool constructs_slot(Kind k)
   {
-    return k == CT_DEFAULT || k == CT_RAW || k == CT_RAWNULL || k == CT_COPY || k == CT_MOVE || k == CT_CONV || k == ADOPT || k == CT_COPY_MEM || k == CT_MOVE_MEM;
+    return k == CT_DEFAULT || k == CT_RAW || k == CT_RAWNULL || k == CT_COPY || k == CT_MOVE || k == CT_CONV || k == ADOPT || k == CT_COPY_MEM || k == CT_MOVE_MEM || k == CT_CONV_MEM;
   }
   bool enabled(const Model &m, int op) const
   {
@@ -206,6 +221,14 @@ struct PtrSys
     case CT_COPY_MEM:
     case CT_MOVE_MEM:
       return !m.cons[o.a] && m.cons[o.b] && m.tgt[o.b] >= 0;
+    case SETDMEM:
+      return m.alive[0] && m.outside(0) && m.cons[2];
+    case SETDMEM_NULL:
+      return m.alive[0] && m.outside(0) && m.dmem >= 0;
+    case AS_CONV_MEM:
+      return m.cons[o.a] && m.cons[o.b] && m.tgt[o.b] == 0;  // the pointee must be the Node
+    case CT_CONV_MEM:
+      return !m.cons[o.a] && m.cons[o.b] && m.tgt[o.b] == 0;
     }
     return false;
   }
@@ -218,6 +241,8 @@ struct PtrSys
         if (m.alive[k] && m.count(k) == 0) {
           m.alive[k] = 0;
           m.mem[k] = -1;
+          if (k == 0)
+            m.dmem = -1;
           m.manual[k] = 0;
           died[k] = true;
           again = true;
@@ -233,6 +258,8 @@ struct PtrSys
       m.alive[o.a] = 1;
       m.manual[o.a] = 1;
       m.mem[o.a] = -1;
+      if (o.a == 0)
+        m.dmem = -1;
       break;
     case DEC:
       m.manual[o.a]--;
@@ -287,6 +314,8 @@ struct PtrSys
       m.alive[o.b] = 1;
       m.manual[o.b] = 0;
       m.mem[o.b] = -1;
+      if (o.b == 0)
+        m.dmem = -1;
       m.cons[o.a] = 1;
       m.tgt[o.a] = (signed char)o.b;
       break;
@@ -312,6 +341,19 @@ struct PtrSys
       m.tgt[o.a] = m.mem[m.tgt[o.b]];
       m.mem[m.tgt[o.b]] = -1;
       break;
+    case SETDMEM:
+      m.dmem = m.tgt[2];
+      break;
+    case SETDMEM_NULL:
+      m.dmem = -1;
+      break;
+    case AS_CONV_MEM:
+      m.tgt[o.a] = m.dmem;  // read before anything is released
+      break;
+    case CT_CONV_MEM:
+      m.cons[o.a] = 1;
+      m.tgt[o.a] = m.dmem;
+      break;
     }
     died[0] = died[1] = false;
     settle(m, died);
@@ -325,7 +367,7 @@ struct PtrSys
   {
     std::string s;
     for (int k = 0; k < 2; k++)
-      s += "obj" + S(k) + (m.alive[k] ? "(creator " + S(m.manual[k]) + ", count " + S(m.count(k)) + (m.mem[k] >= 0 ? ", next->obj" + S(m.mem[k]) : "") + ") " : "(-) ");
+      s += "obj" + S(k) + (m.alive[k] ? "(creator " + S(m.manual[k]) + ", count " + S(m.count(k)) + (m.mem[k] >= 0 ? ", next->obj" + S(m.mem[k]) : "") + (k == 0 && m.dmem >= 0 ? ", dnext->obj1" : "") + ") " : "(-) ");
     for (int i = 0; i < 3; i++)
       s += "h" + S(i) + (m.cons[i] ? (m.tgt[i] < 0 ? "=null" : "->obj" + S(m.tgt[i])) : "(-)") + (i < 2 ? " " : "");
     return s;
@@ -339,6 +381,7 @@ struct PtrSys
     Base *raw[2] = {nullptr, nullptr};  // valid while the model says the object is alive
     Derived *rawd = nullptr;
     BPtr *member[2] = {nullptr, nullptr};  // &raw[k]->next, valid while the model says the object is alive
+    DPtr *dmember = nullptr;               // &obj0->dnext, likewise
     int base_dtor[2] = {0, 0}, derived_dtor = 0;
     BPtr *hb[2] = {nullptr, nullptr};
     DPtr *hd = nullptr;
@@ -353,6 +396,7 @@ struct PtrSys
         Node *n = new Node(&base_dtor[0]);
         raw[0] = n;
         member[0] = &n->next;
+        dmember = &n->dnext;
       } else {
         derived_dtor = 0;
         rawd = new Derived(&base_dtor[1], &derived_dtor);
@@ -465,6 +509,20 @@ struct PtrSys
       case CT_MOVE_MEM:
         hb[o.a] = new BPtr(std::move(*member[before.tgt[o.b]]));
         break;
+      case SETDMEM:
+        *dmember = *hd;
+        break;
+      case SETDMEM_NULL:
+        *dmember = nullptr;
+        break;
+      case AS_CONV_MEM: {  // h_i = h_j->dnext with h_j -> obj0: Base handle assigned from a Derived handle
+        const DPtr &src = *dmember;
+        *hb[o.a] = src;
+        break;
+      }
+      case CT_CONV_MEM:
+        hb[o.a] = new BPtr(*dmember);
+        break;
       }
     }
 
@@ -558,6 +616,10 @@ struct PtrSys
             return;
           }
         }
+      if (model.alive[0] && dmember->ptr != (model.dmem < 0 ? nullptr : rawd)) {
+        ctx.viol(o.cls + "|handle does not point at the object it was given", std::string("Derived member handle of object 0 disagrees with ") + (model.dmem < 0 ? "null" : "object 1"));
+        return;
+      }
       // 4. comparisons agree with pointer identity
       if (fresh) {
         for (int i = 0; i < 2; i++)
@@ -584,6 +646,7 @@ struct PtrSys
           h = sq::mix(h, model.alive[k] * 256 + model.manual[k] * 32 + (model.mem[k] + 1) * 4 + (died[k] ? 1 : 0));
         for (int i = 0; i < 3; i++)
           h = sq::mix(h, model.cons[i] * 8 + (model.tgt[i] + 1));
+        h = sq::mix(h, model.dmem + 1);
         sq::outcomes().add(h);
       }
       if (ctx.verbose)
@@ -609,6 +672,8 @@ struct PtrSys
       for (int k = 0; k < 2 && !ctx.failed; k++)
         if (model.alive[k] && model.mem[k] >= 0)
           step(find_op(SETMEM_NULL, k), false);
+      if (!ctx.failed && model.alive[0] && model.dmem >= 0)
+        step(find_op(SETDMEM_NULL, 0), false);
       for (int i = 0; i < 3 && !ctx.failed; i++)
         if (model.cons[i])
           step(find_op(DTOR, i), false);
